@@ -20,7 +20,9 @@ CHUNK = 1000
 STAR_RUNS = {"quick": 20000, "thorough": 1000000}
 RULE = ("seeded graphs with 1..12 vertices incl. isolated ones (G(n,p), stars, paths, complete graphs, forests; node "
         "and edge attributes; arbitrary labels), phi in {0, 2^-53, 0.1, 0.3, 0.5, 0.9, 1-2^-53, 1}, float schedules "
-        "uniform / extreme (0.0, 2^-53, 1-2^-53) / lo / hi / mix; non-trivial = graph has >= 1 edge; distinct = distinct "
+        "uniform / extreme (0.0, 2^-53, 1-2^-53) / lo / hi / mix; 35% of the runs are histories on ONE graph object whose edges the "
+        "caller edits in place between two calls (edges added / removed, a vertex attached), every clause re-evaluated against "
+        "the edited graph; non-trivial = graph has >= 1 edge; distinct = distinct "
         "execution digests.  Exact law: on a catalogue of small (multi)graphs - stars, multi-spoke stars, disjoint edges, two "
         "stars, fragments larger than the giant, triangle plus path - the distribution of N*S under uniform decisions vs the "
         "exact law from enumerating all edge subsets, rigorous KL bound")
@@ -76,6 +78,36 @@ def generate(prng, tier, index):
     if index % 6 == 5:
         sc["variant"] = "faults"
         sc["abort_line"] = prng.randrange(0, 12)
+    if prng.random() < 0.35 and g["nodes"]:
+        # history on ONE graph object: between two calls the caller edits the graph IN PLACE (grows it, removes or
+        # rewires an edge) - percolate, rewire, percolate again.  Every clause is re-evaluated against the edited graph.
+        if len(sc["phis"]) < 2:
+            sc["phis"] = sc["phis"] + [prng.choice((0.0, 0.0, 1.0, prng.choice(PHIS)))]
+        nodes = list(g["nodes"])
+        cur = [list(e) for e in g["edges"]]
+        edits = []
+        fresh = 0
+        for _ in range(len(sc["phis"]) - 1):
+            ed = []
+            for _ in range(prng.choice((1, 1, 2, 3))):
+                kind = prng.choice(("add", "add", "remove", "add_node_edge"))
+                if kind == "remove" and cur:
+                    e = cur.pop(prng.randrange(len(cur)))
+                    ed.append(["remove", e[0], e[1]])
+                elif kind == "add_node_edge":
+                    new = f"new{fresh}"
+                    fresh += 1
+                    a = prng.choice(nodes)
+                    nodes.append(new)
+                    cur.append([a, new])
+                    ed.append(["add", a, new])
+                elif len(nodes) >= 2:
+                    a, b = prng.sample(nodes, 2)
+                    if g.get("multi") or not any({repr(a), repr(b)} == {repr(x), repr(y)} for x, y in cur):
+                        cur.append([a, b])
+                        ed.append(["add", a, b])
+            edits.append(ed)
+        sc["edits"] = edits
     return sc
 
 
@@ -110,7 +142,19 @@ def execute(sc, ctx):
         st, _ = ctx.call(src, bond_percolate, G, sc["phis"][0], abort_at_line=sc["abort_line"], budget=4 * G.number_of_edges() + 1000,
                          label="percolate[interrupted at line]")
         ctx.expect(f"{P}.input", snapshot(G) == before, "input graph modified by an interrupted bond_percolate")
-    for phi in sc["phis"]:
+    h = (lambda v: tuple(v) if isinstance(v, list) else v)
+    for qi, phi in enumerate(sc["phis"]):
+        if qi > 0 and sc.get("edits") and qi - 1 < len(sc["edits"]) and sc["edits"][qi - 1]:
+            for op, a, b in sc["edits"][qi - 1]:
+                a, b = h(a), h(b)
+                if op == "add":
+                    G.add_edge(a, b)
+                elif G.has_edge(a, b):
+                    G.remove_edge(a, b)
+            N = G.order()
+            largest = max(len(c) for c in nx.connected_components(G))
+            before = snapshot(G)
+            ctx.probe("graph_edited_in_place_between_calls")
         # decision budget scales with the input: one draw per edge is what the helper needs; 4x + slack is generous,
         # and exhausting it means "no result" (a fixed 10000 false-alarmed on graphs with more than 10000 edges)
         st, S = ctx.call(src, bond_percolate, G, phi, budget=4 * G.number_of_edges() + 1000, label=f"percolate[{phi!r}]")
@@ -146,7 +190,18 @@ def nontrivial(sc, ctx):
 
 def shrink(sc):
     g = sc["graph"]
-    if len(sc["phis"]) > 1:
+    if sc.get("edits"):
+        ed = sc["edits"]
+        yield {k: v for k, v in sc.items() if k != "edits"}
+        for i in range(len(sc["phis"])):
+            if len(sc["phis"]) > 2:
+                j = max(0, i - 1)
+                yield dict(sc, phis=sc["phis"][:i] + sc["phis"][i + 1:], edits=ed[:j] + ed[j + 1:])
+        for gi, gap in enumerate(ed):
+            for k in range(len(gap)):
+                if sum(len(x) for x in ed) > 1:
+                    yield dict(sc, edits=ed[:gi] + [gap[:k] + gap[k + 1:]] + ed[gi + 1:])
+    elif len(sc["phis"]) > 1:
         for i in range(len(sc["phis"])):
             yield dict(sc, phis=sc["phis"][:i] + sc["phis"][i + 1:])
     for i in range(len(g["edges"])):
